@@ -315,3 +315,62 @@ def optest_programs(r, n, only=None):
         code = oc if isinstance(oc, bytes) else i2a(oc)
         out.append((gen.tt(op(code, *[q(a) for a in args])), gen.tt(b""), nm))
     return out
+
+
+# ---------------------------------------------------------------------------------------------
+# programs whose outcome depends on ONE particular flag (each flag bit is read by few operators on
+# few inputs; random flag sets x random programs almost never meet those inputs)
+# ---------------------------------------------------------------------------------------------
+G1_GEN = bytes.fromhex("97f1d3a73197d7942695638c4fa9ac0fc3688c4f9774b905a14e3a3f171bac586c55e83ff97a1aeffb3af00adb22c6bb")
+G2_GEN = bytes.fromhex("93e02b6052719f607dacd3a088274f65596bd0d09920b61ab5da61bbdc7f5049334cf11213945d57e5ac7d055d042b7e"
+                       "024aa2b2f08f0a91260805272dc51051c6e47ad4fa403b02b4510b647ae3d1770bac0326a805bbefd48056c8c121bdb8")
+
+
+def flag_sensitive_programs(r, n_each=3):
+    """-> list of (p_tt, e_tt, flagbit, what)"""
+    out = []
+
+    def add(prog, bit, what):
+        out.append((gen.tt(prog), gen.tt(b""), bit, what))
+
+    for _ in range(n_each):
+        # RELAXED_BLS: g1_negate / g2_negate validate their argument only without the flag
+        bad1 = bytearray(G1_GEN); bad1[-1] ^= 1 + r.getrandbits(3)
+        bad2 = bytearray(G2_GEN); bad2[-1] ^= 1 + r.getrandbits(3)
+        for code, pt in ((51, bytes(bad1)), (55, bytes(bad2)), (51, G1_GEN), (55, G2_GEN),
+                         (51, bytes(r.getrandbits(8) for _ in range(48))), (55, bytes(r.getrandbits(8) for _ in range(96)))):
+            add(op(code, q(pt)), FLAG["RELAXED_BLS"], "negate")
+        # LIMITS / DISABLE_OP: operand size limits of * / divmod % modpow g1_multiply g2_multiply
+        for n in (255, 256, 257, 1024, 1025, 2048, 2049):
+            big = bytes([1 + r.getrandbits(6)]) + bytes(r.getrandbits(8) for _ in range(n - 1))
+            small = i2a(r.choice([3, 7, 255, 65537]))
+            for code in (18, 19, 20, 61):
+                add(op(code, q(big), q(small)), FLAG["LIMITS"], "size-%d" % n)
+                add(op(code, q(small), q(big)), FLAG["LIMITS"], "size-%d" % n)
+                add(op(code, q(big), q(small)), FLAG["DISABLE_OP"], "size-%d" % n)
+            add(op(60, q(big), q(small), q(i2a(1000003))), FLAG["LIMITS"], "modpow-%d" % n)
+            add(op(60, q(small), q(small), q(big)), FLAG["LIMITS"], "modpow-%d" % n)
+            add(op(50, q(G1_GEN), q(big)), FLAG["LIMITS"], "g1mul-%d" % n)
+            add(op(54, q(G2_GEN), q(big)), FLAG["LIMITS"], "g2mul-%d" % n)
+        add(op(60, q(i2a(2)), q(i2a(77)), q(i2a(1000003))), FLAG["DISABLE_OP"], "modpow")
+        # CANONICAL_INTS: integer arguments with redundant leading zeros
+        s = b"abcdefgh"
+        for a, b in ((b"\x00\x01", i2a(3)), (i2a(1), b"\x00\x03"), (b"\x00", i2a(3)), (b"\x00\x80", i2a(200)), (i2a(1), b"\x00\x00\x03")):
+            add(op(12, q(s), q(a), q(b)), FLAG["CANONICAL_INTS"], "substr")
+        add(guard(q(i2a(1)), b"", b"\x00" + i2a(160), 0), FLAG["CANONICAL_INTS"], "guard-cost")
+        # NO_UNKNOWN_OPS
+        for oc in (b"\x0f", b"\x40\x00", bytes.fromhex("13d61f01"), b"\x3e", b"\x3f", b"\x40", b"\x41"):
+            add(op(oc, q(i2a(5)), q(b"xyz")), FLAG["NO_UNKNOWN_OPS"], "unknown")
+        # operators that exist only with their flag
+        add(op(62, q(b"abc")), FLAG["KECCAK_OUTSIDE"], "keccak")
+        add(op(63, q((b"a", (b"b", b"")))), FLAG["SHA256_TREE"], "sha256tree")
+        # MALACHITE: division with negative operands / zero
+        for a, b in ((-7, 2), (7, -2), (-7, -2), (0, 5), (5, 0), (-2 ** 70, 3), (2 ** 70, -3)):
+            for code in (19, 20, 61):
+                add(op(code, q(i2a(a)), q(i2a(b))), FLAG["MALACHITE"], "div")
+        add(op(60, q(i2a(-3)), q(i2a(5)), q(i2a(-7))), FLAG["MALACHITE"], "modpow")
+    # secp through the one-byte opcodes 64 / 65 (ENABLE_SECP_OPS)
+    for nm, oc, args, fail in optest_calls():
+        if nm in ("secp256k1_verify", "secp256r1_verify") and r.random() < 0.15:
+            add(op(64 if nm.startswith("secp256k1") else 65, *[q(a) for a in args]), FLAG["SECP_OPS"], nm)
+    return out
